@@ -742,3 +742,24 @@ Example single_put_ok :
   let st := run_from (init dput_progs) dput_sched in
   exclusive 2 st = true /\ h_scr (t_h (s_thr st 0) 0) <> h_scr (t_h (s_thr st 1) 0).
 Proof. vm_compute. split; [reflexivity|discriminate]. Qed.
+
+(* ------------------------------------------------------------------ *)
+(** * Frame: a goroutine's results do not depend on the other goroutines *)
+
+(* Two runs with arbitrary other goroutines, arbitrary schedules, arbitrary
+   pool behaviour: if goroutine t has the same program in both and has
+   finished it in both, its results are the same (both are [solo_run] of the
+   program).  In the model Eval reads the tables of its own handle and nothing
+   else — in particular nothing mutable of the Circuit; that the Go code has no
+   such state is what the source inventory of harness c17 checks. *)
+Lemma frame progs progs' sched sched' t :
+  nth t progs [] = nth t progs' [] ->
+  let th := s_thr (run_from (init progs) sched) t in
+  let th' := s_thr (run_from (init progs') sched') t in
+  t_prog th = [] -> t_prog th' = [] -> t_res th = t_res th'.
+Proof.
+  intros E th th' H H'.
+  destruct (linearizable progs sched t) as (_ & A). destruct (linearizable progs' sched' t) as (_ & B).
+  fold th in A. fold th' in B. specialize (A H). specialize (B H'). rewrite E in A. rewrite <- B in A.
+  apply (f_equal (@rev res)) in A. now rewrite !rev_involutive in A.
+Qed.
